@@ -21,8 +21,12 @@ structure ImplBinding where
 def progRefs (p : List ProgFile) : List (String × List String × TypeRef) :=
   (progDecls p).flatMap (fun (f, ns, d) => ((topTypes d).flatMap dataNodesT).map (fun t => (f, ns, t)))
 
+/-- the references of every file (files in finish order) with the registry that file is read against -/
+def progRefsOrdered (pre : Registry) (p : List ProgFile) : List (Registry × String × List String × TypeRef) :=
+  p.zipIdx.flatMap (fun (f, i) => (progRefs [f]).map (fun r => (regUpTo pre p i, r)))
+
 def spec (req : Json) : Except String Json := do
-  let (_, fs, builtins, _) ← decodeReq req
+  let (cfg, fs, builtins, root) ← decodeReq req
   let impl ← req.getObjVal? "impl"
   let kind ← impl.getObjValAs? String "kind"
   let bj ← req.getObjValAs? (Array Json) "bindings"
@@ -31,7 +35,7 @@ def spec (req : Json) : Except String Json := do
     let pos ← getPos j "p"
     let key ← j.getObjValAs? String "key"
     pure ({ file := file, pos := pos, key := key } : ImplBinding))
-  match programOf fs with
+  match (programOf fs).bind (fun _ => programInOrder cfg fs root) with
   | none => pure (Json.mkObj [("holds", kind == "diags"), ("note", "syntax")])
   | some prog =>
     let pre := builtins ++ extRegistry fs
@@ -42,12 +46,11 @@ def spec (req : Json) : Except String Json := do
         | .error _ => false)
       pure (Json.mkObj [("holds", ok), ("note", "duplicate declaration"), ("why", strsJ (if ok then [] else ["duplicate-not-rejected"]))])
     else
-      let reg := progRegistry pre prog
       let idiags ← (if kind == "diags" then do
           let a ← impl.getObjValAs? (Array Json) "diags"
           a.toList.mapM decodeImplDiag
         else pure [])
-      let bad := (progRefs prog).filterMap (fun (f, ns, t) =>
+      let bad := (progRefsOrdered pre prog).filterMap (fun (reg, f, ns, t) =>
         match t with
         | .data name _ _ pos =>
           let got := (bindings.find? (fun b => b.file == f && b.pos == pos)).map (·.key)
